@@ -297,3 +297,15 @@ Proof. intros Hp H. change 8 with (2 ^ 3) in H. apply align_ptr_some in H; [exac
 
 Lemma align_ptr_total8 p : 1 <= p -> up p 8 < W64 -> align_ptr p 8 = Some (up p 8).
 Proof. intros Hp H. change 8 with (2 ^ 3). apply align_ptr_total; [lia|assumption|exact H]. Qed.
+
+(** packaged statements used by Props/C17.v *)
+Lemma up_is_least p a : 0 < a ->
+  up p a mod a = 0 /\ p <= up p a /\ forall m, m mod a = 0 -> p <= m -> up p a <= m.
+Proof. intros H. split; [apply up_mod; assumption|]. split; [apply up_ge; assumption|]. intros m. apply up_least; assumption. Qed.
+
+Lemma req_bounds p size k r : 0 <= k -> 0 <= size -> p mod 8 = 0 -> push_req size (2 ^ k) = Some r ->
+  up (up (p + 8) (2 ^ k) + size) 8 <= p + r.
+Proof.
+  intros Hk Hs Hp H. apply push_req_some in H; [|assumption|assumption]. destruct H as [-> _].
+  apply consumption_le_req; assumption.
+Qed.
